@@ -157,7 +157,12 @@ func (in *Interp) unop(fr *frame, x *ssa.UnOp) Value {
 				}
 				return in.zero(x.Type())
 			}
-			in.end("blocked", "receive on ctx.Done() of uncancelled context at "+fr.where())
+			ctx := ch.ctx
+			in.block("ctx.Done", func() bool { return in.ctxCancelled(fr, ctx) })
+			if x.CommaOk {
+				return Tuple{in.zero(x.Type().(*types.Tuple).At(0).Type()), false}
+			}
+			return in.zero(x.Type())
 		}
 		in.unsupported("channel receive at %s", fr.where())
 	}
@@ -1363,6 +1368,9 @@ func (in *Interp) selectOp(fr *frame, x *ssa.Select) Value {
 		if ch == nil || ch.ctx == nil {
 			continue
 		}
+		if !x.Blocking || true {
+			in.emit("poll", ch.ctx.String(), fmt.Sprint(in.ctxCancelled(fr, ch.ctx)))
+		}
 		if in.ctxCancelled(fr, ch.ctx) {
 			res[0] = Int(uint64(i))
 			res[2+i] = in.zero(st.Chan.Type().Underlying().(*types.Chan).Elem())
@@ -1376,8 +1384,22 @@ func (in *Interp) selectOp(fr *frame, x *ssa.Select) Value {
 		}
 		return res
 	}
-	in.end("blocked", "blocking select with no ready case at "+fr.where())
-	return nil
+	// blocking select over ctx.Done() channels
+	var ctxs []*Obj
+	for _, st := range x.States {
+		if ch, _ := fr.get(st.Chan).(*Chan); ch != nil && ch.ctx != nil {
+			ctxs = append(ctxs, ch.ctx)
+		}
+	}
+	in.block("select", func() bool {
+		for _, c := range ctxs {
+			if in.ctxCancelled(fr, c) {
+				return true
+			}
+		}
+		return false
+	})
+	return in.selectOp(fr, x)
 }
 
 // ------------------------------------------------------------------
@@ -1634,54 +1656,26 @@ func (in *Interp) copyOp(fr *frame, dst, src Value) Value {
 }
 
 // ------------------------------------------------------------------
-// goroutines (Layer SE): eager or late sequential schedule
+// goroutines: see sched.go
 
 func (in *Interp) spawn(fr *frame, fn Value, args []Value) {
-	g := &goroutine{fn: fn, args: args}
+	name := "go"
 	switch f := fn.(type) {
 	case *ssa.Function:
-		g.name = f.String()
+		name = f.String()
 	case *Closure:
-		g.name = f.Fn.String()
+		name = f.Fn.String()
 	}
-	if in.lateSched {
-		in.goQueue = append(in.goQueue, g)
-		return
-	}
-	in.runGoroutine(fr, g)
+	in.spawnThread(fr, fn, args, name)
 }
 
-func (in *Interp) runGoroutine(fr *frame, g *goroutine) {
-	if g.done {
-		return
-	}
-	g.done = true
-	in.inGo++
-	defer func() {
-		in.inGo--
-		r := recover()
-		if r == nil {
-			return
-		}
-		if tp, ok := r.(*targetPanic); ok {
-			// unrecovered panic at the top of a goroutine: the process dies
-			in.path.events = append(in.path.events, Event{Kind: "CRASH", Args: []string{g.name, tp.site, tp.kind}})
-			in.crashes = append(in.crashes, tp)
-			return
-		}
-		panic(r)
-	}()
-	in.path.events = append(in.path.events, Event{Kind: "go", Args: []string{g.name}})
-	in.call(fr, g.fn, g.args, nil, false)
-}
-
-// runPending runs queued goroutines (late schedule) until the queue is empty.
+// runPending: let every other runnable thread run until it blocks or ends.
 func (in *Interp) runPending(fr *frame) {
-	for len(in.goQueue) > 0 {
-		g := in.goQueue[0]
-		in.goQueue = in.goQueue[1:]
-		in.runGoroutine(fr, g)
+	if in.cur == nil {
+		return
 	}
+	self := in.cur.id
+	in.block("run-pending", func() bool { return !in.othersRunnable(self) })
 }
 
 var _ = utf8.RuneError
